@@ -23,6 +23,7 @@ type HTTPCase struct {
 	Case
 	Transport       string `json:"transport"`                 // post | get | sse | multipart
 	DisconnectAfter int    `json:"disconnectAfter,omitempty"` // >0: drop the connection after reading this many bytes
+	Bare            bool   `json:"bare,omitempty"`            // omit empty keys from the request body
 }
 
 type HTTPResult struct {
@@ -60,7 +61,18 @@ func RunHTTP(es graphql.ExecutableSchema, c HTTPCase) HTTPResult {
 		srv.ServeHTTP(w, r.WithContext(WithState(ctx, st)))
 	}))
 	res := HTTPResult{ID: c.ID, Transport: c.Transport}
-	body, _ := json.Marshal(map[string]any{"query": c.Query, "variables": c.Variables, "operationName": c.OperationName})
+	bm := map[string]any{"query": c.Query, "variables": c.Variables, "operationName": c.OperationName}
+	if c.Bare {
+		// only the keys the client has something to say about (what a pooled request struct must not remember)
+		bm = map[string]any{"query": c.Query}
+		if len(c.Variables) > 0 {
+			bm["variables"] = c.Variables
+		}
+		if c.OperationName != "" {
+			bm["operationName"] = c.OperationName
+		}
+	}
+	body, _ := json.Marshal(bm)
 	var req *http.Request
 	switch c.Transport {
 	case "get":
